@@ -1,3 +1,4 @@
+import XdsVerif.Proofs.Flow
 import XdsVerif.Proofs.Seq
 import XdsVerif.Proofs.Stream
 import XdsVerif.Properties.C01
@@ -134,5 +135,39 @@ example : (run C01.exCfg init
      .push { rt := .cds, version := "8", nonce := "n2", slots := [.good "c1" "w"] } 0, .senderSend false]).map
     (fun s => s.wire.map (fun kq => (kq.1, kq.2.nonce, kq.2.version)))
     = some [(1, "", ""), (1, "n1", "7"), (2, "", "7"), (2, "n2", "8")] := by decide
+
+/-! ## Nonces stay on their stream, at goroutine granularity (`Model/Flow.lean`)
+
+`nonce_per_stream` holds for atomic operations. In the code the producers of requests (`Watch` from any number of
+lookups and from the cleaner, `updateAndACK` from the receiver), the sender and the reconnecting receiver are different
+goroutines; what keeps an old nonce off a new stream is that *reading the nonce and handing the request to the channel* is
+one `c.mu` section, and *resetting the nonces and draining the channel* is another. The request-path model tags every
+request with the epoch (stream generation) in which its producer took the lock. -/
+
+theorem facts_flow : Generated.flow = Flow.expectedFacts := by decide
+
+/-- **every request on the wire of stream `k` was built in the epoch of stream `k`** — any number of producers, any
+interleaving with the sender (including a `Send` stalled across a reconnect) and with repeated stream failures -/
+theorem nonce_per_stream_goroutines {α : Type} (ls : List (Flow.Lbl α)) (s : Flow.S α)
+    (h : Flow.run Generated.seq.reqCap Flow.init ls = some s) :
+    (∀ p ∈ s.sentEp, p.2 = s.streamEp p.1) ∧ s.sentEp.map (·.1) = s.sent.map (·.1) :=
+  ⟨Flow.wire_epoch (Flow.reachable h), (Flow.reachable h).par⟩
+
+/-- after a reconnect has reset the nonces nothing built before it is left in the channel -/
+theorem nothing_stale_queued {α : Type} (ls : List (Flow.Lbl α)) (s : Flow.S α)
+    (h : Flow.run Generated.seq.reqCap Flow.init ls = some s) : ∀ e ∈ s.queueEp, e = s.epoch :=
+  Flow.queue_epoch (Flow.reachable h)
+
+/-! non-vacuity: a request is in `Send` on stream 1 (stalled) when the stream fails; lookup 1 misses during the reconnect
+(its request is drained), lookup 2 after it; the in-flight request dies with its stream; on stream 2 only the request of
+the new epoch appears -/
+example : (Flow.run 4 (Flow.init : Flow.S Nat)
+    [.pStart 0 10, .pLock 0, .pEnq 0, .sTakeReq, .stall, .rFail, .pStart 1 11, .pLock 1, .pEnq 1, .rDrain, .rPublish,
+     .pStart 2 12, .pLock 2, .pEnq 2, .resume, .sSendDone, .sTakeStream, .sAdopt [], .sTakeReq, .sSendDone]).map
+    (fun s => (s.sent, s.sentEp, s.streamEp 2)) = some ([(2, 12)], [(2, 1)], 1) := by decide
+example : (Flow.run 4 (Flow.init : Flow.S Nat)
+    [.pStart 0 10, .pLock 0, .pEnq 0, .sTakeReq, .stall, .rFail, .pStart 1 11, .pLock 1, .pEnq 1, .rDrain, .rPublish,
+     .pStart 2 12, .pLock 2, .pEnq 2, .resume, .sSendDone, .sTakeStream, .sAdopt [], .sTakeReq, .sSendDone]).map
+    (fun s => (s.drained, s.dropped.map (·.1))) = some ([11], [10]) := by decide
 
 end XdsVerif.Properties.C04
